@@ -1,5 +1,6 @@
 import copy
 import logging
+import math
 import os
 from os import path
 from typing import List, Tuple, Union, Type, Optional, Dict
@@ -306,9 +307,17 @@ class GridSearch:
 
         labels = []
         for prior in sorted(arguments.values(), key=lambda pr: pr.id):
+            # two decimals, or as many as it takes to tell neighbouring cells apart:
+            # cells that share a label would share an output folder (and a result)
+            decimals = 2
+            if 0.0 < prior.width < 0.01:
+                decimals = int(math.ceil(-math.log10(prior.width)))
             labels.append(
-                "{}_{:.2f}_{:.2f}".format(
-                    model.name_for_prior(prior), prior.lower_limit, prior.upper_limit
+                "{}_{:.{decimals}f}_{:.{decimals}f}".format(
+                    model.name_for_prior(prior),
+                    prior.lower_limit,
+                    prior.upper_limit,
+                    decimals=decimals,
                 )
             )
 
